@@ -43,12 +43,32 @@ func TestCheck(t *testing.T) {
 	}
 	e.deadline = time.Now().Add(budget)
 	n := 0
+	var sel, iso []*target
 	for _, tg := range ts {
+		if tg.quickSkip && !run.Thorough() {
+			continue
+		}
 		if run.WantPart(tg.name) {
-			e.runTarget(tg)
 			n++
+			if tg.isolate {
+				iso = append(iso, tg)
+			} else {
+				sel = append(sel, tg)
+			}
 		}
 	}
+	// isolated parts (child processes, mostly waiting on loopback round trips) run alongside the in-process parts
+	isoDone := make(chan struct{})
+	go func() {
+		defer close(isoDone)
+		for _, tg := range iso {
+			e.runTarget(tg)
+		}
+	}()
+	for _, tg := range sel {
+		e.runTarget(tg)
+	}
+	<-isoDone
 	e.reportViolations()
 	run.SetExtra("entry_point_x_prestate_parts", n)
 	for i, tg := range ts {
